@@ -3,7 +3,7 @@
    arguments (begin, end of left; begin [, end] of right); the four derived operators are the usual one-liners. *)
 From Coq Require Import List ZArith Bool Lia Arith.
 From C06 Require Import Spec SpecProofs WrapOrdered GenPrims GenRefine GenNode.
-From C06 Require Gen_SetCmp Gen_SetCmpD Gen_MapCmp Gen_MapCmpD Gen_VecCmp Gen_VecCmpD Gen_SetNodeIns Gen_USetNodeIns Gen_SetMerge.
+From C06 Require Gen_SetCmp Gen_SetCmpD Gen_MapCmp Gen_MapCmpD Gen_VecCmp Gen_VecCmpD Gen_SetNodeIns Gen_USetNodeIns Gen_MapNodeIns Gen_UMapNodeIns Gen_SetMerge.
 Import ListNotations.
 Local Open Scope Z_scope.
 
@@ -91,6 +91,17 @@ Proof. reflexivity. Qed.
 End NodeIns.
 Lemma uset_node_ins_same_code : Gen_USetNodeIns.insert_node = Gen_SetNodeIns.insert_node /\ Gen_USetNodeIns.extract_key = Gen_SetNodeIns.extract_key.
 Proof. split; reflexivity. Qed.
+
+(* map_base / unordered_map insert(node&&), extract(key), extract(iterator): the same code as the set's (IteratorProxy wrapping and
+   const conversions are identities); extract(iterator) constructs the node handle from the pair "this container, where" *)
+Lemma node_functions_same_code :
+  Gen_MapNodeIns.insert_node = Gen_SetNodeIns.insert_node /\ Gen_UMapNodeIns.insert_node = Gen_SetNodeIns.insert_node /\
+  Gen_MapNodeIns.extract_key = Gen_SetNodeIns.extract_key /\ Gen_UMapNodeIns.extract_key = Gen_SetNodeIns.extract_key /\
+  Gen_MapNodeIns.extract_iter = Gen_SetNodeIns.extract_iter /\ Gen_UMapNodeIns.extract_iter = Gen_SetNodeIns.extract_iter /\
+  Gen_USetNodeIns.extract_iter = Gen_SetNodeIns.extract_iter.
+Proof. repeat split; reflexivity. Qed.
+Lemma gen_extract_iter_spec (make_node : Z -> Z -> Z) this_ w : Gen_SetNodeIns.extract_iter make_node this_ w = make_node this_ w.
+Proof. reflexivity. Qed.
 
 (* merge(source) is a bare forward to the nested MergeFrom (TreeSet: C02_merge_*_refines) *)
 Lemma gen_set_merge_forwards nested_of ev_merge_from st s : Gen_SetMerge.merge nested_of ev_merge_from st s = ev_merge_from st (nested_of s).
